@@ -475,22 +475,21 @@ class BaseParser:
                     field.attr_dependencies if as_attname else field.dependencies
                 )
 
-        if not options.ignore_required:
-            # if required field is ignored. we do not need to check for required fields
-            for key, field in self.fields.items():
-                name = field.attname if as_attname else field.name
-                if name in result or name in provided_values:
-                    # provided values that failed to parse are reported by their own error
-                    continue
-                if excluded_keys and name in excluded_keys:
-                    continue
-                unprovided_fields.add(name)
-                if field.is_required(options=options):
-                    context.handle_error(exc.AbsenceError(item=name))
-                    continue
-                default = field.get_default(options, defer=False)
-                if not unprovided(default):
-                    result[name] = default
+        # even if required fields are ignored (is_required is then False) the defaults still apply
+        for key, field in self.fields.items():
+            name = field.attname if as_attname else field.name
+            if name in result or name in provided_values:
+                # provided values that failed to parse are reported by their own error
+                continue
+            if excluded_keys and name in excluded_keys:
+                continue
+            unprovided_fields.add(name)
+            if field.is_required(options=options):
+                context.handle_error(exc.AbsenceError(item=name))
+                continue
+            default = field.get_default(options, defer=False)
+            if not unprovided(default):
+                result[name] = default
 
         if dependencies:
             dependant = set(result)
